@@ -333,24 +333,36 @@ func byteClass(c byte) string {
 		return "amp"
 	case c == '=':
 		return "eq"
+	case c == ';':
+		return "semicolon"
 	case c == 0:
 		return "nul"
 	case c < 0x20 || c == 0x7f:
 		return "ctl"
 	case c >= 0x80:
 		return "high"
-	case c == ';':
-		return "semicolon"
 	case c >= '0' && c <= '9', c >= 'a' && c <= 'z', c >= 'A' && c <= 'Z':
 		return "alnum"
 	}
-	return fmt.Sprintf("0x%02x", c)
+	return "punct"
 }
 
-// diffClass names the first byte of want at which got differs.
+// diffClass is the narrow class of a key/value that did not survive the round
+// trip: "dropped" (nothing came back), "undecoded-escape[-at-end]" (the parser
+// left the serialiser's %XX of that byte in place), else the class of the first
+// byte of want at which got differs.
 func diffClass(got, want string) string {
+	if got == "" && want != "" {
+		return "dropped"
+	}
 	for i := 0; i < len(want); i++ {
 		if i >= len(got) || got[i] != want[i] {
+			if strings.HasPrefix(strings.ToUpper(got[min(i, len(got)):]), fmt.Sprintf("%%%02X", want[i])) && want[i] != '%' {
+				if i == len(want)-1 {
+					return "undecoded-escape-at-end"
+				}
+				return "undecoded-escape"
+			}
 			return byteClass(want[i])
 		}
 	}
@@ -439,7 +451,7 @@ func TestC28(t *testing.T) {
 	r.Assume("has '=' of a parsed Args is read from its own QueryString() tokens (no accessor exists); entries with empty key and empty value are excluded from the round-trip comparison as the statement says and counted as skipped_empty_entries")
 	r.Assume("byte slices handed to the *Bytes* variants are overwritten right after the call: Args is expected to copy its inputs (README: all functions copy)")
 
-	n := r.N(300_000, 12_000_000)
+	n := r.N(500_000, 8_000_000)
 	maxOps := r.N(12, 24)
 	const block = 1000
 	blocks := (n + block - 1) / block
